@@ -2,6 +2,15 @@ package main
 
 // Input families of C09. Everything here is deterministic and indexable: a case is
 // (kind, base, family, index); parent and workers regenerate the same bytes from it.
+//
+// Mutants this check must kill (patches in /verif/mutants, each verified in a scratch
+// worktree against the quick tier; the new key(s) each one produces):
+//   C09-writevlen-fd-boundary      WriteVlen writes 253 in one byte      -> reencode/*-mismatch, block/reencode-mismatch
+//   C09-wtxid-without-witness      SetHash stores the txid as wtxid      -> id/wtxid-mismatch
+//   C09-vsize-floor                VSize rounds down                     -> size/vsize-mismatch
+//   C09-blockweight-without-count  BuildTxListExt(true) omits the count  -> block/weight-mismatch
+//   C09-segwit-nowitsize-marker    NoWitSize counts marker+flag          -> size/nowitsize-mismatch, size/weight-mismatch, size/vsize-mismatch
+//   C09-vlen-fe-reads-16bit        VLen masks the 5-byte form to 24 bits -> cs/over-max-size-accepted, trunc/accepted
 
 import (
 	"fmt"
